@@ -113,6 +113,9 @@ def random_code(rng, n: int, mode: str = "uniform") -> bytes:
     out = bytearray()
     while len(out) < n:
         r = rng.random()
+        if r < 0.02:
+            out += b"\x00" * rng.randint(9, 48)      # objdump elides runs of zeros as "\t..."
+            continue
         if r < 0.25:
             out += bytes(rng.choice(PREFIX_BYTES) for _ in range(rng.randint(1, 3)))
         if r < 0.15:
